@@ -11,6 +11,13 @@ package main
 //     selfDestructed), ERC20MaliciousDelayed and ERC20DirectBalanceManipulation with the
 //     hard-coded thief address replaced by a key the harness owns, and a hand-assembled token
 //     that emits Transfer(caller, to, n) without moving balances (fakeTransferLog);
+//   * the switchable adversarial family "adv" (epAdvTokenCode): a hand-assembled token that is
+//     honest until its owner arms it and then answers balanceOf()/totalSupply() in the manner
+//     cfg.bal (true | empty | revert | short | zero | high) and executes transfer() in the manner
+//     cfg.xfer (honest | noop | less | more | elsewhere | extra | retFalse | retEmpty | retShort | refuse),
+//     for ever or only until the first transfer (cfg.shot = always | once).  Its TRUE books are its
+//     storage (slot(address) = balance); the projection reads them with EvmKeeper.GetState, never
+//     through the answers of the contract;
 //   * steps: MsgConvertCoin / MsgConvertERC20 / bank MsgSend through the message service router
 //     on a cached context (baseapp.runMsgs semantics); ERC20 transfer / burn / transferFrom as
 //     REAL Ethereum transactions through DeliverTx (ante handler, state transition, post-tx
@@ -64,7 +71,10 @@ type epStep struct {
 
 type epCfg struct {
 	Kind      string   `json:"kind"`      // coin | erc20
-	Behaviour string   `json:"behaviour"` // honest | delayedMalicious | directManipulation | selfDestructed | fakeTransferLog
+	Behaviour string   `json:"behaviour"` // honest | delayedMalicious | directManipulation | selfDestructed | fakeTransferLog | adv
+	Bal       string   `json:"bal"`       // adv: how balanceOf answers while armed ("-" otherwise)
+	Xfer      string   `json:"xfer"`      // adv: what transfer does while armed
+	Shot      string   `json:"shot"`      // adv: always | once
 	Holders   []string `json:"holders"`
 	InitBal   string   `json:"initBal"`
 	Seed      int64    `json:"seed"`
@@ -246,6 +256,232 @@ func epFakeTokenCode() []byte {
 	return append(ini, runtime...)
 }
 
+// Storage layout of the hand-assembled tokens: slot(address) = balance, slot(2^255) = total
+// supply, slot(2^255+1) = the adversarial switch.
+var (
+	epSupplySlot = new(big.Int).Lsh(big.NewInt(1), 255)
+	epArmedSlot  = new(big.Int).Add(epSupplySlot, big.NewInt(1))
+	epArmSel     = ethcrypto.Keccak256([]byte("arm(uint256)"))[:4]
+)
+
+const epLie = 2 // by how much a "high" balanceOf overstates (LIE of the specification)
+
+var epBalModes = map[string]bool{"true": true, "empty": true, "revert": true, "short": true, "zero": true, "high": true}
+var epXferModes = map[string]bool{"honest": true, "noop": true, "less": true, "more": true, "elsewhere": true, "extra": true,
+	"retFalse": true, "retEmpty": true, "retShort": true, "refuse": true}
+
+// epAdvTokenCode assembles the creation code of the switchable adversarial token.
+//
+//	name()/symbol() "ADV", decimals() 0, mint(a, n) open (set-up), arm(x) open: switch := x
+//	every other selector (approve, burn, allowance, transferFrom, ...) answers one zero word
+//	not armed:  balanceOf / totalSupply / transfer are those of an honest token (transfer moves n
+//	            from CALLER to `to`, reverts without cover, logs Transfer, answers true)
+//	armed:      balanceOf(a) and totalSupply() answer in the manner `bal`:
+//	              true  the stored value      empty  RETURN with no data      revert  REVERT
+//	              short 16 bytes              zero   0                        high    stored + epLie
+//	            transfer(to, n) first clears the switch if shot = once, then in the manner `xfer`:
+//	              honest                        noop      moves nothing, no log, answers true
+//	              less   moves n/2              more      moves 2n
+//	              elsewhere  moves n to the thief instead of `to`
+//	              extra  moves n to `to` and n more from the caller to the thief
+//	              retFalse / retEmpty / retShort   moves n, answers false / nothing / 16 bytes
+//	              refuse  moves nothing and answers false (the non-reverting way of failing)
+//	            every leg is an ordinary move (needs cover, else the call reverts) and is logged
+//	            truthfully as Transfer(caller, recipient of the leg, amount of the leg)
+func epAdvTokenCode(bal, xfer, shot string, thief common.Address) ([]byte, error) {
+	if !epBalModes[bal] || !epXferModes[xfer] || (shot != "always" && shot != "once") {
+		return nil, fmt.Errorf("unknown adversarial token modes %q/%q/%q", bal, xfer, shot)
+	}
+	const (
+		opADD, opMUL, opSUB, opDIV, opLT, opEQ, opISZERO   = 0x01, 0x02, 0x03, 0x04, 0x10, 0x14, 0x15
+		opCALLER, opCALLDATALOAD, opMSTORE, opSLOAD, opSST = 0x33, 0x35, 0x52, 0x54, 0x55
+		opJUMPI, opDUP1, opLOG3, opRETURN, opREVERT, opSHR = 0x57, 0x80, 0xa3, 0xf3, 0xfd, 0x1c
+	)
+	a := newAsm()
+	push4 := func(b []byte) { a.op(0x63); a.op(b[:4]...) }
+	ret := func(off, size byte) { a.push1(size); a.push1(off); a.op(opRETURN) }
+	arg0 := func() { a.push1(4); a.op(opCALLDATALOAD) }  // first argument (an address or a number)
+	arg1 := func() { a.push1(36); a.op(opCALLDATALOAD) } // second argument
+	armed := func() { a.push32(epArmedSlot); a.op(opSLOAD) }
+	// answer(load) emits the armed / honest answers of a read-only function whose true value `load` pushes
+	answer := func(tag string, load func()) {
+		if bal != "true" {
+			armed()
+			a.op(opISZERO)
+			a.pushLabel(tag + "_true")
+			a.op(opJUMPI)
+			switch bal {
+			case "empty":
+				ret(0, 0)
+			case "revert":
+				a.push1(0)
+				a.push1(0)
+				a.op(opREVERT)
+			case "short":
+				load()
+				a.push1(0)
+				a.op(opMSTORE)
+				ret(16, 16)
+			case "zero":
+				ret(0x40, 0x20) // untouched memory: one zero word
+			case "high":
+				a.push1(epLie)
+				load()
+				a.op(opADD)
+				a.push1(0)
+				a.op(opMSTORE)
+				ret(0, 0x20)
+			}
+		}
+		a.label(tag + "_true")
+		load()
+		a.push1(0)
+		a.op(opMSTORE)
+		ret(0, 0x20)
+	}
+	// leg(to, amt): an ordinary move from CALLER; every operand is re-read from storage, so legs
+	// compose sequentially (self-transfers included)
+	leg := func(to, amt func()) {
+		amt()
+		a.op(opCALLER, opSLOAD, opLT) // balance(caller) < amt
+		a.pushLabel("fail")
+		a.op(opJUMPI)
+		amt()
+		a.op(opCALLER, opSLOAD, opSUB) // balance(caller) - amt
+		a.op(opCALLER, opSST)
+		amt()
+		to()
+		a.op(opSLOAD, opADD)
+		to()
+		a.op(opSST)
+		amt()
+		a.push1(0)
+		a.op(opMSTORE)
+		to()
+		a.op(opCALLER)
+		a.push32(epTransferTopic.Big())
+		a.push1(0x20)
+		a.push1(0)
+		a.op(opLOG3)
+	}
+	toThief := func() { a.push20(thief) }
+	half := func() { a.push1(2); arg1(); a.op(opDIV) }
+	double := func() { a.push1(2); arg1(); a.op(opMUL) }
+	retTrue := func() { a.push1(1); a.push1(0); a.op(opMSTORE); ret(0, 0x20) }
+
+	a.push1(0)
+	a.op(opCALLDATALOAD)
+	a.push1(0xe0)
+	a.op(opSHR)
+	for _, d := range [][2]string{{"name()", "str"}, {"symbol()", "str"}, {"totalSupply()", "ts"}, {"balanceOf(address)", "bal"},
+		{"transfer(address,uint256)", "xfer"}, {"mint(address,uint256)", "mint"}, {"arm(uint256)", "arm"}} {
+		a.op(opDUP1)
+		push4(ethcrypto.Keccak256([]byte(d[0])))
+		a.op(opEQ)
+		a.pushLabel(d[1])
+		a.op(opJUMPI)
+	}
+	a.label("zero") // decimals() and every function the token does not have
+	ret(0x40, 0x20)
+	a.label("fail")
+	a.push1(0)
+	a.push1(0)
+	a.op(opREVERT)
+	a.label("str")
+	a.push1(0x20)
+	a.push1(0)
+	a.op(opMSTORE)
+	a.push1(3)
+	a.push1(0x20)
+	a.op(opMSTORE)
+	name := make([]byte, 32)
+	copy(name, "ADV")
+	a.push32(new(big.Int).SetBytes(name))
+	a.push1(0x40)
+	a.op(opMSTORE)
+	ret(0, 0x60)
+	a.label("ts")
+	answer("ts", func() { a.push32(epSupplySlot); a.op(opSLOAD) })
+	a.label("bal")
+	answer("bal", func() { arg0(); a.op(opSLOAD) })
+	a.label("mint")
+	arg1()
+	arg0()
+	a.op(opSLOAD, opADD)
+	arg0()
+	a.op(opSST)
+	arg1()
+	a.push32(epSupplySlot)
+	a.op(opSLOAD, opADD)
+	a.push32(epSupplySlot)
+	a.op(opSST)
+	retTrue()
+	a.label("arm")
+	arg0()
+	a.push32(epArmedSlot)
+	a.op(opSST)
+	retTrue()
+	a.label("xfer")
+	if xfer != "honest" {
+		armed()
+		a.op(opISZERO)
+		a.pushLabel("xfer_honest")
+		a.op(opJUMPI)
+		if shot == "once" {
+			a.push1(0)
+			a.push32(epArmedSlot)
+			a.op(opSST)
+		}
+		switch xfer {
+		case "noop":
+			retTrue()
+		case "refuse":
+			ret(0x40, 0x20)
+		case "less":
+			leg(arg0, half)
+			retTrue()
+		case "more":
+			leg(arg0, double)
+			retTrue()
+		case "elsewhere":
+			leg(toThief, arg1)
+			retTrue()
+		case "extra":
+			leg(arg0, arg1)
+			leg(toThief, arg1)
+			retTrue()
+		case "retFalse":
+			leg(arg0, arg1)
+			ret(0x40, 0x20)
+		case "retEmpty":
+			leg(arg0, arg1)
+			ret(0, 0)
+		case "retShort":
+			leg(arg0, arg1)
+			a.push1(1)
+			a.push1(0)
+			a.op(opMSTORE)
+			ret(16, 16)
+		}
+	} else if shot == "once" {
+		// an honest transfer still ends the armed phase of a once-token
+		armed()
+		a.op(opISZERO)
+		a.pushLabel("xfer_honest")
+		a.op(opJUMPI)
+		a.push1(0)
+		a.push32(epArmedSlot)
+		a.op(opSST)
+	}
+	a.label("xfer_honest")
+	leg(arg0, arg1)
+	retTrue()
+	runtime := a.assemble()
+	n := len(runtime)
+	ini := []byte{0x61, byte(n >> 8), byte(n), 0x61, 0x00, 0x0f, 0x60, 0x00, 0x39, 0x61, byte(n >> 8), byte(n), 0x60, 0x00, 0xf3}
+	return append(ini, runtime...), nil
+}
+
 // epCreationCode returns the creation bytecode (with constructor arguments) of the token
 // of the scenario's behaviour; the thief constant of the malicious artifacts is replaced.
 func (e *epEnv) epCreationCode(initSupply *big.Int) ([]byte, error) {
@@ -275,6 +511,8 @@ func (e *epEnv) epCreationCode(initSupply *big.Int) ([]byte, error) {
 		return patch(contracts.ERC20DirectBalanceManipulationContract)
 	case "fakeTransferLog":
 		return epFakeTokenCode(), nil
+	case "adv":
+		return epAdvTokenCode(e.cfg.Bal, e.cfg.Xfer, e.cfg.Shot, e.eth(epThief))
 	}
 	return nil, fmt.Errorf("unknown behaviour %q", e.cfg.Behaviour)
 }
@@ -294,6 +532,9 @@ func (e *epEnv) propose(content govv1beta1.Content) error {
 }
 
 func newEpEnv(cfg epCfg) (*epEnv, error) {
+	if cfg.Behaviour != "adv" && (cfg.Bal != "-" || cfg.Xfer != "-" || cfg.Shot != "-") {
+		return nil, fmt.Errorf("token modes %q/%q/%q given for the fixed behaviour %q", cfg.Bal, cfg.Xfer, cfg.Shot, cfg.Behaviour)
+	}
 	g := DefaultGenesisCfg(cfg.Seed)
 	g.NAccts = len(cfg.Holders) + 2
 	g.NVals = 1
@@ -484,14 +725,29 @@ func (e *epEnv) project() M {
 	}
 	acct := app.EvmKeeper.GetAccountWithoutBalance(ctx, e.contract)
 	alive := acct != nil && acct.IsContract()
+	// the token's books: what the contract answers - except for the adversarial family, whose
+	// answers are the thing under test: its TRUE books are read from its storage
+	adv := e.cfg.Behaviour == "adv"
+	slot := func(k *big.Int) *big.Int {
+		return app.EvmKeeper.GetState(ctx, e.contract, common.BigToHash(k)).Big()
+	}
 	ts := e.callBig(ctx, "totalSupply")
+	if adv {
+		ts = slot(epSupplySlot)
+	}
+	armed := adv && slot(epArmedSlot).Sign() != 0
 	tokenBal := M{}
 	tokenOther := new(big.Int)
 	if ts != nil {
 		tokenOther.Set(ts)
 	}
 	for _, a := range append(append([]string{}, e.accts...), epModule) {
-		b := e.callBig(ctx, "balanceOf", e.eth(a))
+		var b *big.Int
+		if adv {
+			b = slot(new(big.Int).SetBytes(e.eth(a).Bytes()))
+		} else {
+			b = e.callBig(ctx, "balanceOf", e.eth(a))
+		}
 		tokenBal[a] = epStr(b)
 		if b != nil {
 			tokenOther.Sub(tokenOther, b)
@@ -504,7 +760,8 @@ func (e *epEnv) project() M {
 			registered, enabled = true, pair.Enabled
 		}
 	}
-	return M{"kind": e.cfg.Kind, "behaviour": e.cfg.Behaviour, "registered": registered, "enabled": enabled, "alive": alive,
+	return M{"kind": e.cfg.Kind, "behaviour": e.cfg.Behaviour, "bal": e.cfg.Bal, "xfer": e.cfg.Xfer, "shot": e.cfg.Shot, "armed": armed,
+		"registered": registered, "enabled": enabled, "alive": alive,
 		"escrowCoins": escrow.String(), "coinSupply": supply.String(), "coinBal": coinBal, "ibcEscrow": ibcEscrow.String(), "coinOther": coinOther.String(),
 		"tokenSupply": epStr(ts), "tokenBal": tokenBal, "tokenOther": tokenOther.String(), "allowMT": epStr(allow)}
 }
@@ -597,6 +854,15 @@ func (e *epEnv) step(st epStep) (ok bool, es string) {
 			return false, err.Error()
 		}
 		return e.ethTx(epThief, &e.contract, data, 1_000_000)
+	case "arm":
+		// the token's owner flips the switch of the adversarial token: a real Ethereum transaction
+		v := big.NewInt(0)
+		if on, _ := st.Args["on"].(bool); on {
+			v.SetInt64(1)
+		}
+		var w [32]byte
+		v.FillBytes(w[:])
+		return e.ethTx(epThief, &e.contract, append(append([]byte{}, epArmSel...), w[:]...), 1_000_000)
 	case "toggle":
 		err := e.propose(erc20types.NewToggleTokenConversionProposal("toggle", "toggle the pair", e.contract.Hex()))
 		return err == nil, epShort(errStr(err))
@@ -680,6 +946,38 @@ func (e *epEnv) runStep(st epStep) (bool, string, M) {
 	return ok, es, post
 }
 
+func epDefaultModes(cfg *epCfg) {
+	if cfg.Bal == "" {
+		cfg.Bal = "-"
+	}
+	if cfg.Xfer == "" {
+		cfg.Xfer = "-"
+	}
+	if cfg.Shot == "" {
+		cfg.Shot = "-"
+	}
+}
+
+// epAdvCombos is the adversarial family of the real runs (MC_AdvReal of the specification): every
+// transfer behaviour under a truthful balanceOf; every balanceOf behaviour with an honest transfer,
+// with the worst transfer for token -> coin (noop) and the worst for coin -> token (more) -
+// unreadable answers always or only until the first transfer, constant lies always.
+func epAdvCombos() [][3]string {
+	var out [][3]string
+	for _, x := range []string{"honest", "noop", "less", "more", "elsewhere", "extra", "retFalse", "retEmpty", "retShort", "refuse"} {
+		out = append(out, [3]string{"true", x, "always"})
+	}
+	for _, b := range []string{"empty", "revert", "short", "zero", "high"} {
+		for _, x := range []string{"honest", "noop", "more"} {
+			out = append(out, [3]string{b, x, "always"})
+			if b != "zero" && b != "high" {
+				out = append(out, [3]string{b, x, "once"})
+			}
+		}
+	}
+	return out
+}
+
 var epCombos = [][2]string{{"coin", "honest"}, {"erc20", "honest"}, {"erc20", "delayedMalicious"}, {"erc20", "directManipulation"},
 	{"erc20", "selfDestructed"}, {"erc20", "fakeTransferLog"}}
 
@@ -720,6 +1018,7 @@ func epMain(args []string) error {
 			if cfg.InitBal == "" {
 				cfg.InitBal = *initBal
 			}
+			epDefaultModes(&cfg)
 			if cfg.Seed == 0 {
 				cfg.Seed = *seed*100003 + int64(i)
 			}
@@ -738,8 +1037,15 @@ func epMain(args []string) error {
 
 	for i := 0; i < *random; i++ {
 		s := *seed*1000003 + int64(i)
-		combo := epCombos[i%len(epCombos)]
-		cfg := epCfg{Kind: combo[0], Behaviour: combo[1], Holders: []string{"a1", "a2", "a3"}, InitBal: "1000000000000000000000", Seed: s}
+		combo := epCombos[(i/2)%len(epCombos)]
+		cfg := epCfg{Kind: combo[0], Behaviour: combo[1], Bal: "-", Xfer: "-", Shot: "-", Holders: []string{"a1", "a2", "a3"},
+			InitBal: "1000000000000000000000", Seed: s}
+		if i%2 == 1 {
+			// every other scenario meets a member of the adversarial family (rotating with the seed)
+			adv := epAdvCombos()
+			c := adv[(int(*seed%1000)*7+i/2)%len(adv)]
+			cfg.Kind, cfg.Behaviour, cfg.Bal, cfg.Xfer, cfg.Shot = "erc20", "adv", c[0], c[1], c[2]
+		}
 		if i%5 == 4 {
 			cfg.InitBal = "40"
 		}
@@ -754,6 +1060,24 @@ func epMain(args []string) error {
 		pickAcct := func() string { return e.accts[r.Intn(len(e.accts))] }
 		// an amount relative to a balance: 1, all, all+1, a fraction, or a small constant
 		pickAmt := func(bal string) string {
+			if armed, _ := post["armed"].(bool); armed && r.Intn(3) == 0 {
+				// an attacker picks his amounts adaptively: exactly what the escrow or some account
+				// holds right now (where a comparison of balances can be fooled)
+				var c []string
+				for _, m := range []M{post["tokenBal"].(M), post["coinBal"].(M)} {
+					for _, a := range append(append([]string{}, e.accts...), epModule) {
+						if v, ok := m[a].(string); ok && v != "0" {
+							c = append(c, v)
+						}
+					}
+				}
+				if v, ok := post["tokenBal"].(M)[epModule].(string); ok && v != "0" {
+					c = append(c, v, v, v) // most of all: exactly what is escrowed
+				}
+				if len(c) > 0 {
+					return c[r.Intn(len(c))]
+				}
+			}
 			b := mustBig(bal)
 			switch r.Intn(7) {
 			case 0:
@@ -795,7 +1119,16 @@ func epMain(args []string) error {
 			coinBal, tokenBal := post["coinBal"].(M), post["tokenBal"].(M)
 			var st epStep
 			k := r.Intn(20)
+			armedNow, _ := post["armed"].(bool)
 			switch {
+			case cfg.Behaviour == "adv" && !armedNow && j < 2:
+				// while the token is still honest, holders convert: tokens get escrowed, coins circulate
+				f := rich(tokenBal)
+				st = epStep{"convert_erc20", M{"from": f, "to": f, "amt": pickAmt(tokenBal[f].(string))}}
+			case cfg.Behaviour == "adv" && !armedNow && k%2 == 0:
+				st = epStep{"arm", M{"on": true}}
+			case cfg.Behaviour == "adv" && armedNow && k == 19:
+				st = epStep{"arm", M{"on": false}}
 			case k < 3:
 				f := rich(coinBal)
 				t := f
